@@ -128,6 +128,12 @@ def gen(depth, rnd=None):
     for a in sub:
         for m in MEMBERS:
             out.append(f'{a}.{m}')
+            if m.startswith('_') or depth == 1:
+                # member names written in unusual but accepted ways: grouped, spaced, doubly grouped
+                out.append(f'{a}.({m})')
+                out.append(f'{a}.(({m}))')
+                out.append(f'{a} .( {m} )')
+                out.append(f'({a}).({m})')
         out.append(f'({a})')
         out.append(f'{a}[0]')
         out.append(f'{a}["k"]')
@@ -157,7 +163,9 @@ def bounded(tier, seed, repo_root):
               'x . _secret', 'x._secret', '(x)._secret', 'l[0]._secret', 'd["k"]._secret', 'x.method._secret', 'x.__class__',
               'x.pub.__class__', 'map(str, l)', 'list(map(len, [s]))', 'x.__getattribute__("_secret")', 'sorted(d)[0]',
               'd["_k"]', 'x.method(x._secret)', 'len(x.__dict__)', 'str(x)', 'hash(x)', 'id(x)', 'x.other', 'x.pub',
-              '"%s" % x', 'fmt % x', 'x._ ', 'x.__', 'x._secret.upper()', 'x.method.__self__', 'x.method.__func__']
+              '"%s" % x', 'fmt % x', 'x._ ', 'x.__', 'x._secret.upper()', 'x.method.__self__', 'x.method.__func__',
+              'x.(_secret)', 'x.((__dict__))', 'x.pub.(_x)', 'l[0].(_secret)', 'x.(__class__).(__name__)', '(x).(_secret)',
+              'x.(pub).(_x)', 'x.(method)(x.(_secret))']
     exprs = list(dict.fromkeys(exprs))
     res = pmap(_eval, exprs, repo_root, chunksize=400)
     fails = [f for fs in res for f in fs]
